@@ -171,3 +171,365 @@ Proof.
   rewrite F. cbn [app]. split; [reflexivity|]. split; [|exact C1].
   rewrite C2. apply pad_shape.
 Qed.
+
+(* ================================================================ absorb, squeeze, hash_varlen *)
+Opaque permutation spec_permutation.
+Theorem absorb_refines st chunk : Forall canon st -> Forall canon chunk ->
+  Forall canon (absorb st chunk) /\ map val (absorb st chunk) = spec_absorb (map val st) (map val chunk) /\
+  length (absorb st chunk) = 16%nat.
+Proof.
+  intros Hst Hc. unfold absorb, spec_absorb. rewrite nrate_is.
+  assert (H : Forall canon (chunk ++ skipn 10 st)).
+  { apply Forall_app. split; [exact Hc|]. apply (Forall_firstn_skipn canon 10 st Hst). }
+  destruct (permutation_refines _ H) as [P1 [P2 P3]]. split; [exact P1|]. split; [|exact P3].
+  rewrite P2, map_app, skipn_map. reflexivity.
+Qed.
+
+Theorem squeeze_refines st : Forall canon st ->
+  let '(out, st') := squeeze st in
+  Forall canon out /\ Forall canon st' /\ length st' = 16%nat /\
+  (map val out, map val st') = spec_squeeze (map val st).
+Proof.
+  intros Hst. unfold squeeze, spec_squeeze. rewrite nrate_is.
+  destruct (permutation_refines _ Hst) as [P1 [P2 P3]].
+  split; [apply firstn_canon; exact Hst|]. split; [exact P1|]. split; [exact P3|].
+  rewrite P2, firstn_map. reflexivity.
+Qed.
+
+Lemma firstn_skipn_app {A} (l1 l2 : list A) n : length l1 = n -> firstn n (l1 ++ l2) = l1 /\ skipn n (l1 ++ l2) = l2.
+Proof.
+  intros <-. split.
+  - rewrite <- (Nat.add_0_r (length l1)), firstn_app_2. cbn. apply app_nil_r.
+  - induction l1 as [|x l1 IH]; [reflexivity|]. cbn [length app skipn]. exact IH.
+Qed.
+
+Lemma Forall_concat_inv {A} (Q : A -> Prop) cs : Forall Q (concat cs) -> Forall (Forall Q) cs.
+Proof.
+  induction cs as [|c cs IH]; intros H; [constructor|]. cbn [concat] in H. apply Forall_app in H.
+  destruct H as [H1 H2]. constructor; [exact H1|]. apply IH. exact H2.
+Qed.
+
+Lemma absorb_all_refines cs : forall st fuel, Forall (fun c => length c = 10%nat) cs -> Forall (Forall canon) cs ->
+  Forall canon st -> (length cs <= fuel)%nat ->
+  Forall canon (fold_left absorb cs st) /\
+  map val (fold_left absorb cs st) = spec_absorb_all fuel (map val st) (map val (concat cs)).
+Proof.
+  induction cs as [|c cs IH]; intros st fuel HL HC Hst Hf.
+  - cbn [fold_left concat map]. split; [exact Hst|]. destruct fuel; reflexivity.
+  - destruct fuel as [|f]; [cbn [length] in Hf; lia|].
+    inversion HL as [|? ? Lc HL']; subst. inversion HC as [|? ? Cc HC']; subst.
+    destruct (absorb_refines st c Hst Cc) as [A1 [A2 _]].
+    destruct (IH (absorb st c) f HL' HC' A1 ltac:(cbn [length] in Hf; lia)) as [I1 I2].
+    cbn [fold_left]. split; [exact I1|]. rewrite I2, A2. cbn [concat]. rewrite map_app.
+    assert (Lm : length (map val c) = 10%nat) by (rewrite map_length; exact Lc).
+    destruct (firstn_skipn_app (map val c) (map val (concat cs)) 10 Lm) as [F1 F2].
+    cbn [spec_absorb_all]. rewrite F1, F2.
+    destruct c as [|x c]; [cbn in Lc; lia|]. reflexivity.
+Qed.
+
+Lemma hash_varlen_unfold input :
+  hash_varlen input = Some (firstn 5 (fold_left absorb (chunks 10 (pad input)) tip5_init)).
+Proof.
+  unfold hash_varlen, tip5_pad_and_absorb_all.
+  destruct (pad_and_absorb_all_spec absorb tip5_init input) as [E _]. cbv zeta in E. rewrite E.
+  unfold squeeze. cbn [fst]. rewrite nrate_is. change ndigest with 5%nat. rewrite firstn_firstn. reflexivity.
+Qed.
+
+Lemma init_canon : Forall canon tip5_init /\ map val tip5_init = repeat 0 16.
+Proof.
+  split; [|vm_compute; reflexivity].
+  apply Forall_forall. intros x Hx. apply repeat_spec in Hx. subst x. vm_compute. split; congruence.
+Qed.
+
+Lemma pad_canon input : Forall canon input -> Forall canon (pad input).
+Proof.
+  intros Hin. destruct (pad_shape input) as [Ep _]. cbv zeta in Ep. rewrite Ep. apply Forall_app. split; [exact Hin|].
+  constructor; [vm_compute; split; congruence|]. apply Forall_forall. intros x Hx. apply repeat_spec in Hx.
+  subst x. vm_compute. split; congruence.
+Qed.
+
+Lemma fold_absorb_length cs : forall st, cs <> [] -> Forall (Forall canon) cs -> Forall canon st ->
+  length (fold_left absorb cs st) = 16%nat.
+Proof.
+  induction cs as [|c cs IH]; intros st Hne Hc Hst; [congruence|].
+  inversion Hc as [|? ? Hc1 Hc2]; subst. cbn [fold_left].
+  destruct (absorb_refines st c Hst Hc1) as [A1 [_ A3]].
+  destruct cs as [|c' cs']; [exact A3|]. apply IH; [discriminate|exact Hc2|exact A1].
+Qed.
+
+(* hash_varlen: never panics; zero initial state, absorbs the padded input block by block, outputs the first five
+   elements of one squeeze - exactly the specification's variable-length hash, and canonical *)
+Theorem hash_varlen_spec input : Forall canon input ->
+  exists d, hash_varlen input = Some d /\ Forall canon d /\ map val d = spec_hash_varlen (map val input) /\
+            length d = 5%nat.
+Proof.
+  intros Hin. rewrite hash_varlen_unfold.
+  destruct (pad_and_absorb_all_spec absorb tip5_init input) as [_ [C1 [C2 C3]]]. cbv zeta in *.
+  set (cs := chunks 10 (pad input)) in *.
+  pose proof (pad_canon input Hin) as Hpad.
+  assert (Hcs : Forall (Forall canon) cs) by (apply Forall_concat_inv; rewrite C2; exact Hpad).
+  destruct init_canon as [Hinit Vinit].
+  destruct (absorb_all_refines cs tip5_init (length (spec_pad (map val input))) C1 Hcs Hinit) as [A1 A2].
+  { rewrite <- pad_values, map_length. lia. }
+  exists (firstn 5 (fold_left absorb cs tip5_init)). split; [reflexivity|].
+  split; [apply firstn_canon; exact A1|]. split.
+  - rewrite <- firstn_map, A2, C2, pad_values, Vinit. reflexivity.
+  - rewrite firstn_length, fold_absorb_length; [reflexivity| |exact Hcs|exact Hinit].
+    destruct (pad_length input) as [k [Hk Hk1]]. intros Ecs. rewrite Ecs in C3. cbn [length] in C3. lia.
+Qed.
+
+(* ================================================================ index sampling (model level) *)
+Definition acc_w (e : Z) : bool := negb (e =? max_elem).
+Definition idx_of (ub e : Z) : Z := (ucast 32 (bfe_value e)) mod ub.
+
+Lemma squeeze_n_S k st :
+  fst (squeeze_n (S k) st) = firstn 10 st ++ fst (squeeze_n k (permutation st)) /\
+  snd (squeeze_n (S k) st) = snd (squeeze_n k (permutation st)).
+Proof.
+  cbn [squeeze_n]. unfold squeeze. rewrite nrate_is. destruct (squeeze_n k (permutation st)) as [r st2].
+  split; reflexivity.
+Qed.
+
+(* what the loop guarantees when it returns: k squeezes were made; the indices are, in order, the images of the
+   first `rem` accepted elements of  buf ++ (the k squeezed blocks); k is the least number of squeezes that
+   supplies them; the sponge is left in the state after those k squeezes *)
+Definition go_post (st buf : list Z) (ub : Z) (rem : nat) (acc idx st' : list Z) : Prop :=
+  exists k, st' = snd (squeeze_n k st) /\
+    idx = rev acc ++ firstn rem (map (idx_of ub) (filter acc_w (buf ++ fst (squeeze_n k st)))) /\
+    (rem <= length (filter acc_w (buf ++ fst (squeeze_n k st))))%nat /\
+    (forall k', (k' < k)%nat -> (length (filter acc_w (buf ++ fst (squeeze_n k' st))) < rem)%nat).
+
+Definition go_ok (fuel : nat) : Prop := forall st buf ub rem acc idx st',
+  sample_indices_go fuel st buf ub rem acc = Ok (idx, st') -> go_post st buf ub rem acc idx st'.
+
+Lemma go_step_nonempty f : go_ok f -> forall st e buf' ub r acc idx st',
+  sample_indices_go (S f) st (e :: buf') ub (S r) acc = Ok (idx, st') ->
+  go_post st (e :: buf') ub (S r) acc idx st'.
+Proof.
+  intros IH st e buf' ub r acc idx st' H. cbn [sample_indices_go] in H.
+  destruct (e =? max_elem) eqn:Erej.
+  - destruct (IH _ _ _ _ _ _ _ H) as [k [K1 [K2 [K3 K4]]]]. exists k.
+    assert (F : forall X, filter acc_w ((e :: buf') ++ X) = filter acc_w (buf' ++ X)).
+    { intros X. cbn [app filter]. unfold acc_w at 1. rewrite Erej. reflexivity. }
+    rewrite F. split; [exact K1|]. split; [exact K2|]. split; [exact K3|].
+    intros k' Hk'. rewrite F. apply K4. exact Hk'.
+  - destruct (ub =? 0); [discriminate|].
+    destruct (IH _ _ _ _ _ _ _ H) as [k [K1 [K2 [K3 K4]]]]. exists k.
+    assert (F : forall X, filter acc_w ((e :: buf') ++ X) = e :: filter acc_w (buf' ++ X)).
+    { intros X. cbn [app filter]. unfold acc_w at 1. rewrite Erej. reflexivity. }
+    rewrite F. split; [exact K1|]. split; [|split].
+    + rewrite K2. cbn [rev map firstn]. rewrite <- app_assoc. reflexivity.
+    + cbn [length]. lia.
+    + intros k' Hk'. rewrite F. cbn [length]. specialize (K4 k' Hk'). lia.
+Qed.
+
+Theorem sample_indices_go_ok fuel : go_ok fuel.
+Proof.
+  induction fuel as [|f IH]; intros st buf ub rem acc idx st' H.
+  - destruct rem; [|discriminate]. cbn in H. inversion H; subst. exists 0%nat. cbn [squeeze_n fst snd].
+    split; [reflexivity|]. split; [cbn [firstn]; rewrite app_nil_r; reflexivity|]. split; [lia|]. intros; lia.
+  - destruct rem as [|r].
+    + cbn in H. inversion H; subst. exists 0%nat. cbn [squeeze_n fst snd].
+      split; [reflexivity|]. split; [cbn [firstn]; rewrite app_nil_r; reflexivity|]. split; [lia|]. intros; lia.
+    + destruct buf as [|e buf'].
+      * (* refill: one squeeze, then as with a non-empty buffer on the permuted state *)
+        destruct (firstn 10 st) as [|e buf'] eqn:Ebuf.
+        { cbn [sample_indices_go] in H. unfold squeeze in H. rewrite nrate_is, Ebuf in H. discriminate. }
+        assert (H' : sample_indices_go (S f) (permutation st) (e :: buf') ub (S r) acc = Ok (idx, st')).
+        { cbn [sample_indices_go] in H |- *. unfold squeeze in H. rewrite nrate_is, Ebuf in H. exact H. }
+        destruct (go_step_nonempty f IH _ _ _ _ _ _ _ _ H') as [k [K1 [K2 [K3 K4]]]].
+        exists (S k). destruct (squeeze_n_S k st) as [S1 S2]. rewrite S1, S2, Ebuf. cbn [app].
+        split; [exact K1|]. split; [exact K2|]. split; [exact K3|].
+        intros k' Hk'. destruct k' as [|k''].
+        -- cbn [squeeze_n fst filter length]. lia.
+        -- destruct (squeeze_n_S k'' st) as [S1' _]. rewrite S1', Ebuf. apply K4. lia.
+      * apply (go_step_nonempty f IH). exact H.
+Qed.
+
+Theorem sample_indices_model dbg fuel st ub n idx st' :
+  sample_indices dbg fuel st ub n = Ok (idx, st') ->
+  exists k, st' = snd (squeeze_n k st) /\
+    idx = firstn n (map (idx_of ub) (filter acc_w (fst (squeeze_n k st)))) /\ length idx = n /\
+    (forall k', (k' < k)%nat -> (length (filter acc_w (fst (squeeze_n k' st))) < n)%nat).
+Proof.
+  unfold sample_indices. destruct (dbg && negb (is_pow2 ub)); [discriminate|]. intros H.
+  destruct (sample_indices_go_ok fuel _ _ _ _ _ _ _ H) as [k [K1 [K2 [K3 K4]]]]. cbn [app rev] in *.
+  exists k. split; [exact K1|]. split; [exact K2|]. split; [|exact K4].
+  rewrite K2, firstn_length, map_length. lia.
+Qed.
+
+(* ================================================================ the squeezed stream, on values *)
+Lemma squeeze_n_refines k : forall st, Forall canon st ->
+  Forall canon (fst (squeeze_n k st)) /\ Forall canon (snd (squeeze_n k st)) /\
+  (map val (fst (squeeze_n k st)), map val (snd (squeeze_n k st))) = spec_stream k (map val st).
+Proof.
+  induction k as [|k IH]; intros st Hst.
+  - cbn [squeeze_n spec_stream fst snd map]. auto.
+  - destruct (squeeze_n_S k st) as [S1 S2]. rewrite S1, S2.
+    destruct (permutation_refines st Hst) as [P1 [P2 _]].
+    destruct (IH (permutation st) P1) as [I1 [I2 I3]].
+    split; [apply Forall_app; split; [apply firstn_canon; exact Hst|exact I1]|]. split; [exact I2|].
+    cbn [spec_stream]. unfold spec_squeeze. rewrite <- P2, <- I3, map_app, firstn_map. reflexivity.
+Qed.
+
+Lemma squeeze_n_length k : forall st, Forall canon st -> length st = 16%nat ->
+  length (fst (squeeze_n k st)) = (10 * k)%nat /\ length (snd (squeeze_n k st)) = 16%nat.
+Proof.
+  induction k as [|k IH]; intros st Hst L.
+  - cbn [squeeze_n fst snd length]. lia.
+  - destruct (squeeze_n_S k st) as [S1 S2]. rewrite S1, S2.
+    destruct (permutation_refines st Hst) as [P1 [_ P3]].
+    destruct (IH (permutation st) P1 P3) as [I1 I2]. split; [|exact I2].
+    rewrite app_length, I1, firstn_length. lia.
+Qed.
+
+Lemma max_elem_facts : canon max_elem /\ val max_elem = spec_p - 1.
+Proof. vm_compute. repeat split; congruence. Qed.
+
+Lemma acc_w_val e : canon e -> acc_w e = negb (val e =? spec_p - 1).
+Proof.
+  intros He. unfold acc_w. f_equal. destruct max_elem_facts as [Cm Vm].
+  destruct (Z.eqb_spec e max_elem) as [E|E]; destruct (Z.eqb_spec (val e) (spec_p - 1)) as [V|V]; try reflexivity.
+  - exfalso. apply V. rewrite E. exact Vm.
+  - exfalso. apply E. apply repr_unique; [exact He|exact Cm|]. rewrite V, Vm. reflexivity.
+Qed.
+
+Lemma idx_of_val ub e : canon e -> idx_of ub e = low32_mod ub (val e).
+Proof.
+  intros He. unfold idx_of, low32_mod, ucast, wrap.
+  destruct (value_spec e (canon_word_ok e He)) as [E _]. rewrite E. reflexivity.
+Qed.
+
+Lemma accepted_map l : Forall canon l ->
+  map val (filter acc_w l) = accepted (map val l) /\
+  forall ub, map (idx_of ub) (filter acc_w l) = map (low32_mod ub) (accepted (map val l)).
+Proof.
+  induction 1 as [|e l He Hl [IH1 IH2]]; [split; reflexivity|].
+  unfold accepted in *. cbn [filter map]. rewrite (acc_w_val e He).
+  destruct (negb (val e =? spec_p - 1)); cbn [map].
+  - split; [rewrite IH1; reflexivity|]. intros ub. rewrite IH2, (idx_of_val ub e He). reflexivity.
+  - split; [exact IH1|exact IH2].
+Qed.
+
+(* sample_indices: if it returns, it returns - in order - the low 32 bits modulo the bound of the squeezed elements
+   other than p-1, exactly n of them, and leaves the sponge after k squeezes where k is the FEWEST number of
+   squeezes whose stream contains n accepted elements *)
+Theorem sample_indices_spec dbg fuel st ub n idx st' : Forall canon st ->
+  sample_indices dbg fuel st ub n = Ok (idx, st') ->
+  exists k, (idx, map val st') = spec_sample_indices k (map val st) ub n /\
+            Forall canon st' /\ length idx = n /\
+            enough_squeezes k (map val st) n = true /\
+            (forall k', (k' < k)%nat -> enough_squeezes k' (map val st) n = false).
+Proof.
+  intros Hst H. destruct (sample_indices_model _ _ _ _ _ _ _ H) as [k [K1 [K2 [K3 K4]]]].
+  exists k. destruct (squeeze_n_refines k st Hst) as [R1 [R2 R3]].
+  destruct (accepted_map _ R1) as [A1 A2].
+  unfold spec_sample_indices, enough_squeezes. rewrite <- R3. cbn [fst].
+  split; [rewrite K1, K2, A2; reflexivity|]. split; [rewrite K1; exact R2|]. split; [exact K3|]. split.
+  - apply Nat.leb_le. rewrite <- A1, map_length.
+    rewrite K2, firstn_length, map_length in K3. lia.
+  - intros k' Hk'. apply Nat.leb_gt. destruct (squeeze_n_refines k' st Hst) as [R1' [_ R3']].
+    destruct (accepted_map _ R1') as [A1' _]. rewrite <- R3'. cbn [fst]. rewrite <- A1', map_length.
+    apply K4. exact Hk'.
+Qed.
+
+(* ================================================================ scalar sampling *)
+Lemma triples_chunks n : forall l fuel, (3 * n <= length l)%nat -> (length l <= fuel)%nat ->
+  triples (firstn n (chunks_go fuel 3 l)) = Some (firstn n (groups3 l)).
+Proof.
+  induction n as [|n IH]; intros l fuel Hl Hf; [reflexivity|].
+  destruct l as [|a [|b [|c r]]]; cbn [length] in Hl; try lia.
+  destruct fuel as [|f]; [cbn [length] in Hf; lia|].
+  cbn [chunks_go firstn skipn groups3 triples]. rewrite (IH r f); [reflexivity| |]; cbn [length] in Hf; lia.
+Qed.
+
+Lemma groups3_map (f : Z -> Z) l : map (map f) (groups3 l) = groups3 (map f l).
+Proof.
+  assert (H : forall n l, (length l <= n)%nat -> map (map f) (groups3 l) = groups3 (map f l)).
+  { induction n as [|n IH]; intros l' Hl.
+    - destruct l'; [reflexivity|cbn in Hl; lia].
+    - destruct l' as [|a [|b [|c r]]]; try reflexivity. cbn [groups3 map]. rewrite IH; [reflexivity|].
+      cbn [length] in Hl. lia. }
+  apply (H (length l)). lia.
+Qed.
+
+Theorem sample_scalars_spec st n : Forall canon st -> length st = 16%nat ->
+  exists xs st', sample_scalars st n = Ok (xs, st') /\
+    (map (map val) xs, map val st') = spec_sample_scalars (map val st) n /\
+    Forall canon st' /\ length xs = n /\
+    st' = snd (squeeze_n ((3 * n + 9) / 10) st).
+Proof.
+  intros Hst L. unfold sample_scalars, spec_sample_scalars.
+  assert (Ek : div_ceil (n * Z.to_nat EXTENSION_DEGREE) nrate = ((3 * n + 9) / 10)%nat).
+  { unfold div_ceil. rewrite nrate_is. change (Z.to_nat EXTENSION_DEGREE) with 3%nat. f_equal. lia. }
+  rewrite Ek. set (k := ((3 * n + 9) / 10)%nat).
+  assert (Hk : (3 * n <= 10 * k)%nat).
+  { pose proof (Nat.div_mod (3 * n + 9) 10 ltac:(lia)) as D.
+    pose proof (Nat.mod_upper_bound (3 * n + 9) 10 ltac:(lia)) as B. fold k in D. lia. }
+  destruct (squeeze_n_refines k st Hst) as [R1 [R2 R3]].
+  destruct (squeeze_n_length k st Hst L) as [L1 _].
+  destruct (squeeze_n k st) as [elems st'] eqn:Esq. cbn [fst snd] in *.
+  unfold chunks. rewrite (triples_chunks n elems (length elems)) by lia.
+  exists (firstn n (groups3 elems)), st'. split; [reflexivity|]. rewrite <- R3.
+  split; [rewrite <- firstn_map, groups3_map; reflexivity|]. split; [exact R2|]. split; [|reflexivity].
+  rewrite firstn_length.
+  assert (G : forall m l, (3 * m <= length l)%nat -> (m <= length (groups3 l))%nat).
+  { induction m as [|m IH]; intros l Hl; [lia|]. destruct l as [|a [|b [|c r]]]; cbn [length] in Hl; try lia.
+    cbn [groups3 length]. specialize (IH r). lia. }
+  specialize (G n elems). lia.
+Qed.
+
+(* ================================================================ index sampling terminates when the stream supplies enough elements *)
+Definition good_state (st : list Z) : Prop := Forall canon st /\ length st = 16%nat.
+
+Definition go_total (fuel : nat) : Prop := forall st buf ub rem acc k,
+  good_state st -> ub <> 0 ->
+  (rem <= length (filter acc_w (buf ++ fst (squeeze_n k st))))%nat ->
+  (length buf + 10 * k <= fuel)%nat ->
+  exists idx st', sample_indices_go fuel st buf ub rem acc = Ok (idx, st').
+
+Lemma go_total_nonempty f : go_total f -> forall st e buf' ub r acc k,
+  good_state st -> ub <> 0 ->
+  (S r <= length (filter acc_w ((e :: buf') ++ fst (squeeze_n k st))))%nat ->
+  (length (e :: buf') + 10 * k <= S f)%nat ->
+  exists idx st', sample_indices_go (S f) st (e :: buf') ub (S r) acc = Ok (idx, st').
+Proof.
+  intros IH st e buf' ub r acc k G Hub Hlen Hf. cbn [sample_indices_go].
+  cbn [app filter] in Hlen. unfold acc_w at 1 in Hlen. cbn [length] in Hf.
+  destruct (e =? max_elem) eqn:Erej; cbn [negb] in Hlen.
+  - apply (IH st buf' ub (S r) acc k G Hub Hlen). lia.
+  - destruct (Z.eqb_spec ub 0) as [E|_]; [contradiction|].
+    cbn [length] in Hlen. apply (IH st buf' ub r _ k G Hub); lia.
+Qed.
+
+Theorem sample_indices_go_total fuel : go_total fuel.
+Proof.
+  induction fuel as [|f IH]; intros st buf ub rem acc k G Hub Hlen Hf.
+  - destruct rem as [|r]; [cbn; eauto|]. exfalso.
+    assert (length buf = 0%nat /\ k = 0%nat) as [Hb Hk] by lia. destruct buf; [|discriminate]. subst k.
+    cbn in Hlen. lia.
+  - destruct rem as [|r]; [cbn; eauto|]. destruct buf as [|e buf'].
+    + destruct k as [|k]; [cbn in Hlen; lia|].
+      destruct G as [Gc Gl]. destruct (squeeze_n_S k st) as [S1 _]. rewrite S1 in Hlen. cbn [app] in Hlen.
+      destruct (firstn 10 st) as [|e buf'] eqn:Ebuf.
+      { apply (f_equal (@length Z)) in Ebuf. rewrite firstn_length, Gl in Ebuf. cbn in Ebuf. lia. }
+      assert (Lb : length (e :: buf') = 10%nat) by (rewrite <- Ebuf, firstn_length, Gl; reflexivity).
+      destruct (permutation_refines st Gc) as [P1 [_ P3]].
+      destruct (go_total_nonempty f IH (permutation st) e buf' ub r acc k (conj P1 P3) Hub Hlen) as [idx [st' H]].
+      { rewrite Lb. cbn [length] in Hf. lia. }
+      exists idx, st'. cbn [sample_indices_go] in H |- *. unfold squeeze. rewrite nrate_is, Ebuf. exact H.
+    + apply (go_total_nonempty f IH st e buf' ub r acc k G Hub Hlen Hf).
+Qed.
+
+(* if k squeezes supply n accepted elements and the fuel covers the 10k elements, sample_indices returns *)
+Theorem sample_indices_total dbg fuel st ub n k : Forall canon st -> length st = 16%nat -> ub <> 0 ->
+  dbg && negb (is_pow2 ub) = false ->
+  enough_squeezes k (map val st) n = true -> (10 * k <= fuel)%nat ->
+  exists idx st', sample_indices dbg fuel st ub n = Ok (idx, st').
+Proof.
+  intros Hst L Hub Hdbg Hen Hf. unfold sample_indices. rewrite Hdbg.
+  apply (sample_indices_go_total fuel st [] ub n [] k (conj Hst L) Hub); [|cbn [length]; lia].
+  cbn [app]. unfold enough_squeezes in Hen. apply Nat.leb_le in Hen.
+  destruct (squeeze_n_refines k st Hst) as [R1 [_ R3]]. destruct (accepted_map _ R1) as [A1 _].
+  rewrite <- R3 in Hen. cbn [fst] in Hen. rewrite <- A1, map_length in Hen. exact Hen.
+Qed.
